@@ -87,4 +87,100 @@ theorem edSum_unique {d : F} (hc : EdComplete d) {x1 y1 x2 y2 x3 y3 x3' y3' : F}
   · have : (y3 - y3') * (1 - d * x1 * x2 * y1 * y2) = 0 := by grind
     grind
 
+/-! ## Closure, neutral element, negation -/
+
+theorem edOn_id (d : F) : EdOn d 0 1 := by unfold EdOn; grind
+
+theorem edOn_neg {d x y : F} (h : EdOn d x y) : EdOn d (-x) y := by unfold EdOn at *; grind
+
+/-- `P + (0,1) = P`. -/
+theorem edSum_id_right (d x y : F) : EdSum d x y 0 1 x y := by unfold EdSum; grind
+
+theorem edSum_id_left (d x y : F) : EdSum d 0 1 x y x y := by unfold EdSum; grind
+
+/-- `P + (−P) = (0,1)` for a curve point. -/
+theorem edSum_neg {d x y : F} (h : EdOn d x y) : EdSum d x y (-x) y 0 1 := by
+  unfold EdSum EdOn at *; grind
+
+theorem edSum_comm {d x1 y1 x2 y2 x3 y3 : F} (h : EdSum d x1 y1 x2 y2 x3 y3) :
+    EdSum d x2 y2 x1 y1 x3 y3 := by unfold EdSum at *; grind
+
+private theorem ed_closed_key (d x1 y1 x2 y2 e n1 n2 : F)
+    (h1 : -(x1 * x1) + y1 * y1 = 1 + d * (x1 * x1) * (y1 * y1))
+    (h2 : -(x2 * x2) + y2 * y2 = 1 + d * (x2 * x2) * (y2 * y2))
+    (he : e = d * x1 * x2 * y1 * y2)
+    (hn1 : n1 = x1 * y2 + y1 * x2)
+    (hn2 : n2 = y1 * y2 + x1 * x2) :
+    -(n1*n1) * ((1-e)*(1-e)) + (n2*n2) * ((1+e)*(1+e))
+      - ((1+e)*(1+e)) * ((1-e)*(1-e)) - d * (n1*n1) * (n2*n2) = 0 := by
+  subst he hn1 hn2
+  grind
+
+/-- **Closure**: the sum of two curve points is a curve point. -/
+theorem edSum_closed {d : F} (hc : EdComplete d) {x1 y1 x2 y2 x3 y3 : F}
+    (h1 : EdOn d x1 y1) (h2 : EdOn d x2 y2) (s : EdSum d x1 y1 x2 y2 x3 y3) :
+    EdOn d x3 y3 := by
+  obtain ⟨n1, n2⟩ := ed_denominators_ne_zero hc h1 h2
+  obtain ⟨a, b⟩ := s
+  have key := ed_closed_key d x1 y1 x2 y2 (d * x1 * x2 * y1 * y2) (x1 * y2 + y1 * x2)
+    (y1 * y2 + x1 * x2) h1 h2 rfl rfl rfl
+  rw [← a, ← b] at key
+  generalize hD1 : 1 + d * x1 * x2 * y1 * y2 = D1 at *
+  generalize hD2 : 1 - d * x1 * x2 * y1 * y2 = D2 at *
+  have k2 : (D1 * D1) * (D2 * D2) * (-(x3 * x3) + y3 * y3 - (1 + d * (x3 * x3) * (y3 * y3))) = 0 := by
+    grind
+  have hne : (D1 * D1) * (D2 * D2) ≠ 0 := by grind
+  unfold EdOn
+  grind
+
+/-! ## The concrete addition function -/
+
+/-- Affine addition with inverses (the formulas of `p_plus_b_q` / of the curve library). -/
+def edAdd (d : F) (P Q : F × F) : F × F :=
+  ((P.1 * Q.2 + P.2 * Q.1) * (1 + d * P.1 * Q.1 * P.2 * Q.2)⁻¹,
+   (P.2 * Q.2 + P.1 * Q.1) * (1 - d * P.1 * Q.1 * P.2 * Q.2)⁻¹)
+
+def EdOnP (d : F) (P : F × F) : Prop := EdOn d P.1 P.2
+
+theorem edAdd_sum {d : F} (hc : EdComplete d) {P Q : F × F} (hP : EdOnP d P) (hQ : EdOnP d Q) :
+    EdSum d P.1 P.2 Q.1 Q.2 (edAdd d P Q).1 (edAdd d P Q).2 := by
+  obtain ⟨n1, n2⟩ := ed_denominators_ne_zero hc hP hQ
+  have w1 := Field.mul_inv_cancel n1
+  have w2 := Field.mul_inv_cancel n2
+  unfold EdSum edAdd
+  constructor
+  · simp only
+    generalize (1 + d * P.1 * Q.1 * P.2 * Q.2)⁻¹ = v at w1 ⊢
+    grind
+  · simp only
+    generalize (1 - d * P.1 * Q.1 * P.2 * Q.2)⁻¹ = v at w2 ⊢
+    grind
+
+theorem edAdd_closed {d : F} (hc : EdComplete d) {P Q : F × F} (hP : EdOnP d P) (hQ : EdOnP d Q) :
+    EdOnP d (edAdd d P Q) :=
+  edSum_closed hc hP hQ (edAdd_sum hc hP hQ)
+
+/-- The relation determines the function: any `(x₃,y₃)` related to `P, Q` by `EdSum` is
+`edAdd d P Q`. -/
+theorem edSum_eq_edAdd {d : F} (hc : EdComplete d) {P Q : F × F} (hP : EdOnP d P) (hQ : EdOnP d Q)
+    {x3 y3 : F} (s : EdSum d P.1 P.2 Q.1 Q.2 x3 y3) : (x3, y3) = edAdd d P Q := by
+  have := edSum_unique hc hP hQ s (edAdd_sum hc hP hQ)
+  exact Prod.ext this.1 this.2
+
+theorem edAdd_id_right {d : F} (hc : EdComplete d) {P : F × F} (hP : EdOnP d P) :
+    edAdd d P (0, 1) = P := by
+  have h := edSum_eq_edAdd hc hP (Q := (0, 1)) (edOn_id d) (edSum_id_right d P.1 P.2)
+  exact h.symm
+
+theorem edAdd_id_left {d : F} (hc : EdComplete d) {P : F × F} (hP : EdOnP d P) :
+    edAdd d (0, 1) P = P := by
+  have h := edSum_eq_edAdd hc (P := (0, 1)) (edOn_id d) hP (edSum_id_left d P.1 P.2)
+  exact h.symm
+
+theorem edAdd_comm (d : F) (P Q : F × F) : edAdd d P Q = edAdd d Q P := by
+  unfold edAdd
+  have e1 : d * P.1 * Q.1 * P.2 * Q.2 = d * Q.1 * P.1 * Q.2 * P.2 := by grind
+  rw [e1]
+  apply Prod.ext <;> simp only <;> grind
+
 end MidnightZK.C06
